@@ -227,7 +227,8 @@ static inline void begin_case(const char *prop) {
 	if (!g_stats.registered) { g_stats.registered = true; g_stats.prop = prop; atexit(stats_atexit); }
 	++g_stats.evals;
 	g_stats.current.clear();
-	if ((g_stats.evals & 4095) == 0) g_stats.flush(false);
+	static uint64_t cases = 0;          // (evals may be advanced by targets that execute a case several times, so it is not the flush clock)
+	if ((++cases & 4095) == 0) g_stats.flush(false);
 }
 static inline void count(const char *k, uint64_t n = 1) { g_stats.cls[k] += n; }
 static inline void count(const std::string &k, uint64_t n = 1) { g_stats.cls[k] += n; }
